@@ -23,7 +23,7 @@ def spell_int(v, style):
 
 
 def spell_char(c, quote):
-    plain = {97: 'a', 32: ' ', 59: ';', 44: ',', 35: '#'}
+    plain = {97: 'a', 32: ' ', 59: ';', 44: ',', 35: '#', 120: 'x', 58: ':'}
     if c in plain:
         return plain[c]
     if c == 10:
@@ -83,7 +83,9 @@ def build(e, idx):
             line = f'.zerountil {s["n"]}'
     org = s['cur'] if (s['kind'] == 'fill' and s['form'] == 'zuntil') else ORG
     # the directive sits in the local scope of a label (named alike in every scenario) and uses forward references
-    src = f'.org {org}\nhere:\n{line}\nfwd:\n.byte $EE\n'
+    # a string that spells a label definition ("x:") gets that very label in front of its directive, on the same line
+    front = 'x: ' if (s['kind'] == 'str' and list(s['chars'][:2]) == [120, 58]) else ''
+    src = f'.org {org}\nhere:\n{front}{line}\nfwd:\n.byte $EE\n'
     return {'config': carrier_yaml(**isa_kw), 'files': {'main.asm': src}, 'start': org}, line
 
 
